@@ -138,6 +138,12 @@ class Ext:
         return "Ext(%s)" % self.name
 
 
+def _phi_leaves(v, path=()):
+    if isinstance(v, Phi):
+        return _phi_leaves(v.a, path + ((v.cond, True),)) + _phi_leaves(v.b, path + ((v.cond, False),))
+    return [(path, v)]
+
+
 class Bound:
     """Builtin method bound to a value."""
     __slots__ = ("recv", "name")
@@ -466,6 +472,7 @@ class Evaluator:
         self.order = {}  # (keyA, keyB) -> 'lt' | 'eq' | 'gt'   (facts assumed by the rule: ORD enumeration)
         self.facts = {}  # cond key -> bool
         self.faults = []  # (kind, ast node, text, base key): constant subscripts outside a known shape
+        self.qual_alias = {}  # defining qualname -> the name a rule uses for a function it keeps opaque
         self.strmod_nodes = set()  # BinOp(Mod) nodes whose left operand evaluated to a string
 
     def assume_order(self, a, b, rel):
@@ -590,6 +597,18 @@ class Evaluator:
         self._modcache[modname] = e
         return e
 
+    def _call_fills_global(self, m, call, name):
+        """The call is to a module-level function of m whose body stores into the global `name` by subscript."""
+        if not isinstance(call.func, ast.Name):
+            return False
+        g = self.P.funcs.get("%s.%s" % (m.name, call.func.id))
+        if g is None or g.is_lambda or name in g.params:
+            return False
+        for nd in ast.walk(g.node):
+            if isinstance(nd, ast.Subscript) and isinstance(nd.ctx, ast.Store) and isinstance(nd.value, ast.Name) and nd.value.id == name:
+                return True
+        return False
+
     def func_env(self, func, args=None, closure_env=None):
         parent = closure_env if closure_env is not None else self.module_env(func.module.name)
         e = Env(args or {}, parent, func.module.name, func)
@@ -649,6 +668,12 @@ class Evaluator:
                         continue
                     if after and isinstance(stn, ast.Assign) and len(stn.targets) == 1 and isinstance(stn.targets[0], ast.Subscript) and isinstance(stn.targets[0].value, ast.Name) and stn.targets[0].value.id == name:
                         self.stmt(stn, st0)
+                    elif after and isinstance(stn, (ast.Expr, ast.Assign)) and isinstance(stn.value, ast.Call) and self._call_fills_global(m, stn.value, name):
+                        # registration helpers called at import time:  register("second", ...)  with  NAME[key] = ...  inside
+                        if isinstance(stn, ast.Expr):
+                            self.expr(stn.value, st0)
+                        else:
+                            self.stmt(stn, st0)
             except SymLimit:
                 v = Opaque("%s.%s" % (modname, name))
             finally:
@@ -1589,7 +1614,7 @@ class Evaluator:
         if self.inline_filter is not None and not self.inline_filter(f):
             if c.selfv is not None and not isinstance(c.selfv, ClassRef):
                 return Opaque("%s.%s(%s)" % (key(c.selfv), f.name, ", ".join(key(a) for a in args)))
-            return Opaque("%s(%s)" % (f.qual, ", ".join(key(a) for a in args)))
+            return Opaque("%s(%s)" % (self.qual_alias.get(f.qual, f.qual), ", ".join(key(a) for a in args)))
         if len(self.stack) >= self.max_depth or any(x is f for x in self.stack):
             st.events.append(("call-noinline", f.qual, [key(a) for a in args], node))
             return Opaque("%s(%s)" % (f.qual, ", ".join(key(a) for a in args)))
@@ -1792,6 +1817,18 @@ class Evaluator:
             return Num.atom("ord(%s)" % key(args[0]))
         if name == "getattr" and len(args) >= 2 and isinstance(args[1], Const):
             return self.getattr(args[0], args[1].v, st)
+        if name == "setattr" and len(args) == 3 and isinstance(args[1], Const) and isinstance(args[1].v, str):
+            self.setattr(args[0], args[1].v, args[2], st, node)
+            return NONE
+        if name == "setattr" and len(args) == 3 and isinstance(args[1], Phi):
+            # the attribute name is one of finitely many constants
+            names = [l for _, l in _phi_leaves(args[1])]
+            if all(isinstance(l, Const) and isinstance(l.v, str) for l in names):
+                for l in names:
+                    old = self.getattr(args[0], l.v, st)
+                    cnd = Cond(("cmp", "eq", args[1], l))
+                    self.setattr(args[0], l.v, mkphi(cnd, args[2], old), st, node)
+                return NONE
         if name == "copy.deepcopy" and len(args) == 1:
             return args[0] if isinstance(args[0], (Num, Const)) else Opaque("deepcopy(%s)" % key(args[0]), cls=getattr(args[0], "cls", None), kind="deepcopy")
         txt = "%s(%s)" % (name, ", ".join([key(a) for a in args] + ["%s=%s" % (k, key(v)) for k, v in sorted(kwargs.items())]))
